@@ -37,9 +37,10 @@ def classify(ls, ops):
 
 
 HOOKS = (hook,)
-# a fifth configuration with a non-default text encoding: a rewrite stages the surviving rows in a second file, which has to be
-# written and read back under the same storage options as the database itself (utf-16 can encode every generated string)
-CONFIGS5 = lockstep.CONFIGS + [("csv", True, {"encoding": "utf-16"}, ":utf16")]
+# a fifth configuration with a non-default text encoding and csv dialect: a rewrite stages the surviving rows in a second file,
+# which has to be written and read back under the same storage options as the database itself (utf-16 can encode every generated
+# string; every generated string survives Python's csv with a semicolon delimiter)
+CONFIGS5 = lockstep.CONFIGS + [("csv", True, {"encoding": "utf-16", "delimiter": ";"}, ":utf16;")]
 run_shard = histcheck.make_run_shard("remove", classify, HOOKS, configs=CONFIGS5)
 replay = histcheck.make_replay(HOOKS, configs=CONFIGS5)
 
